@@ -601,6 +601,11 @@ fn collect_const_defs<'tcx>(tcx: TyCtxt<'tcx>, rv: &Rvalue<'tcx>, out: &mut Vec<
                 }
             }
             if let Const::Val(ConstValue::Scalar(Scalar::Int(si)), ty) = c.const_ {
+                if ty.is_integral() {
+                    // integer literals inside a promoted (e.g. `&[1, 2]`)
+                    let sz = si.size();
+                    out.push(format!("lit:{}", si.to_bits(sz)));
+                }
                 if let ty::Adt(def, _) = ty.kind() {
                     if def.is_enum() {
                         let bits = si.to_bits(si.size());
